@@ -1,6 +1,6 @@
 (* C03 -- Printed code parses back to the tree it was printed from (tree-level and text-level clauses).
    Property theorems only. *)
-Require Import Base Token Lexer Tree Writer Compile Parser Grammar PrintSpec CommentSpec RelexSpec PrintProofs RelexProofs.
+Require Import Base Token Lexer Tree Writer Compile Parser Grammar WriterSpec PrintSpec CommentSpec RelexSpec NestSpec PrintProofs RelexProofs AssembledPrettyProofs.
 Require Import Gen.Tables Gen.Printer.
 
 (* the printer-side precedence of every node kind is its ECMAScript level: the two
@@ -53,3 +53,22 @@ Theorem C03_print_parse_compact : forall e,
             = map strip_groups_stmt (p_stmts (shape_program (expr_program e))).
 Proof. exact print_parse_compact. Qed.
 Print Assumptions C03_print_parse_compact.
+
+(* the pretty counterpart of C03_print_parse_compact: same trees (arbitrary operands,
+   lexer-producible literals, comment-free tokens as an assembled tree has them, no line of a
+   multi-line literal ending in a blank: KF3), every
+   pretty configuration with a blank indent unit, semicolons on or off (a single expression
+   statement needs none), with or without source map *)
+(* the tokens stored in an expression tree *)
+Definition expr_tokens (e : expr) : list token := map (fun x => fst (fst x)) (nest_expr false false e).
+
+Theorem C03_print_parse_pretty : forall e indent semis m,
+  printable e = true -> lexical e = true -> negb (first_type e =? T_LBRACE) = true ->
+  tmap_expr erase_comments e = e -> literals_trim_safe (expr_tokens e) = true -> blank_str indent ->
+  exists r, reparse (cfg_pretty indent semis m) (expr_program e) = Some r /\
+            pr_errors r = [] /\
+            shape_program (pr_program r) = shape_program (expr_program (groupify e)) /\
+            map strip_groups_stmt (p_stmts (shape_program (pr_program r)))
+            = map strip_groups_stmt (p_stmts (shape_program (expr_program e))).
+Proof. exact print_parse_pretty. Qed.
+Print Assumptions C03_print_parse_pretty.
